@@ -217,7 +217,8 @@ let do_heap args =
        let calls = String.concat "," (List.map (fun x -> match x with None -> "STUCK" | Some v -> string_of_int (int_of_nat v)) o.ho_calls) in
        let f = match o.ho_finish with None -> "-" | Some None -> "STUCK" | Some (Some (v, _)) -> string_of_int (int_of_nat v) in
        let l = match o.ho_left with None -> "STUCK" | Some (a, b) -> Printf.sprintf "%d=%d" (int_of_nat a) (int_of_nat b) in
-       Printf.sprintf "R HL%d;%s;%s;%s" (int_of_nat o.ho_setup) calls f l)
+       let ow = String.concat "" (List.map (fun x -> match x with None -> "." | Some App -> "A" | Some (Lib _) -> "L") o.ho_own) in
+       Printf.sprintf "R HL%d;%s;%s;%s;%s" (int_of_nat o.ho_setup) calls f l ow)
   | _ -> "R BADREQ"
 
 (* ---- stream rsheap:  E <gf8 0|1> <k> <n> <cbmode> <api> <built 0|1> <finish 0|1> <esi> ...  -> same format as stream heap *)
